@@ -317,8 +317,9 @@ def run_check(engine_name, prop, tier, seed):
     with _pool() as ex:
         futs = [ex.submit(_work, engine_name, prop, tier, seed, c, keep) for c in chunks]
         extra_records = (prep or {}).pop("extra_records", []) if isinstance(prep, dict) else []
-        for b in range(0, len(extra_records), 8):
-            futs.append(ex.submit(_work_records, engine_name, prop, tier, extra_records[b:b + 8], b))
+        per = max(1, min(8, len(extra_records) // (2 * WORKERS)))
+        for b in range(0, len(extra_records), per):
+            futs.append(ex.submit(_work_records, engine_name, prop, tier, extra_records[b:b + per], b))
             chunks = chunks + [[-1]]
         for f, c in zip(futs, chunks):
             remaining = deadline - common.now()
